@@ -9,7 +9,8 @@ from harness.common import Check, draft_classes
 from harness.encode import enc, dec
 
 DRAFTS = (3, 4, 6, 7)
-FORMS = ("minimum", "exclusiveMinimum", "maximum", "exclusiveMaximum", "multipleOf", "maximum+exclusiveMaximum", "minimum+exclusiveMinimum")
+FORMS = ("minimum", "exclusiveMinimum", "maximum", "exclusiveMaximum", "multipleOf", "maximum+exclusiveMaximum", "minimum+exclusiveMinimum",
+         "nested exclusiveMinimum", "nested exclusiveMaximum")
 encode.MAXBITS = 20000
 
 
@@ -24,6 +25,13 @@ def schemas_for(d, b):
     # both keywords of a pair in one schema object (drafts 6/7): the far bound must not disturb the near one
     out.append({"maximum": b, "exclusiveMaximum": 2 ** 1300} if d >= 6 else None)
     out.append({"minimum": b, "exclusiveMinimum": -2 ** 1300} if d >= 6 else None)
+    # the exclusive forms inside a nested subschema, next to an INCLUSIVE root (forms 8, 9; validated on [x])
+    if d in (3, 4):
+        out.append({"minimum": -2 ** 1300, "items": {"minimum": b, "exclusiveMinimum": True}})
+        out.append({"maximum": 2 ** 1300, "items": {"maximum": b, "exclusiveMaximum": True}})
+    else:
+        out.append({"minimum": -2 ** 1300, "items": {"exclusiveMinimum": b}})
+        out.append({"maximum": 2 ** 1300, "items": {"exclusiveMaximum": b}})
     return out
 
 
@@ -66,12 +74,12 @@ class Observer(object):
                             pass
         for row in self.validators(b):
             o = []
-            for v in row:
+            for j, v in enumerate(row):
                 if v is None:
                     o.append("n/a")
                     continue
                 try:
-                    o.append("valid" if v.is_valid(x) else "invalid")
+                    o.append("valid" if v.is_valid([x] if j >= 7 else x) else "invalid")
                 except Exception as e:  # noqa
                     o.append("raise")
                     exc.append("%s: %s" % (type(e).__name__, str(e)[:40]))
@@ -159,7 +167,7 @@ def main(args):
     ob = Observer(cls)
     quick = args.tier == "quick"
     ck.rule = ("(instance, bound) pairs = reachable states of spec/mc/MC_C09 (numbers with <= 2 set bits over an exponent "
-               "set reaching subnormals, 2^53, 2^1024, 2^1200%s; both signs; int/float representations) x 7 keyword "
+               "set reaching subnormals, 2^53, 2^1024, 2^1200%s; both signs; int/float representations) x 9 keyword "
                "forms (incl. maximum next to a far exclusiveMaximum and minimum next to a far exclusiveMinimum in drafts 6/7) x 4 drafts; plus seeded random pairs from 10 families (random doubles, exact float multiples, "
                "power-of-two divisors, integer divisors, witnessed huge integers, 2^53 neighbourhood, subnormals, zeros, "
                "dense integers, huge-int/float) validated by Trace_C09. Non-trivial: both operands non-zero; distinct by "
@@ -179,7 +187,7 @@ def main(args):
             if any(c != want[j] for c in col):
                 ck.violation(FORMS[j], {"x": txt(x), "b": txt(b), "beyond_int_str_limit": beyond_limit(x) or beyond_limit(b), "expected": want[j], "observed_per_draft": col,
                                         "exceptions": exc, "source": "MC_C09"})
-        for j, key in ((5, "maxp"), (6, "minp")):
+        for j, key in ((5, "maxp"), (6, "minp"), (7, "minx"), (8, "maxx")):
             col = [o[j] for o in obs if o[j] != "n/a"]
             if any(c != ex[key] for c in col):
                 ck.violation(FORMS[j], {"x": txt(x), "b": txt(b), "beyond_int_str_limit": beyond_limit(x) or beyond_limit(b), "expected": ex[key], "observed_per_draft": col,
